@@ -18,7 +18,9 @@ LEVEL = 'exploration'
 RULE = ('inputs: corpus and Annex A derivations biased towards nesting (blocks, functions, object literals, switch '
         'with empty / fall-through / default-in-the-middle cases, try arms, empty constructs inside non-empty ones), '
         'parsed with and without comment capture; configurations: indent strings "", one to four spaces, TAB, " TAB"; '
-        'every second program is printed by a printer object that has an abandoned and a completed walk behind it; '
+        'every second program is printed by a printer object that has an abandoned and a completed walk behind it; one '
+        'string per case reaches the stock ruleset through Dispatcher(indent_str=...), one through es5.pretty_print(text, '
+        'indent) given by position or keyword; '
         'a case = (text, indent, comment flag); non-trivial = the output has at least one line at depth >= 1; '
         'distinct by (text, indent, flag).')
 ASSUMPTIONS = ['structural depth of the output is computed from the refjs tree of the output itself; continuation lines '
